@@ -258,6 +258,8 @@ theorem inv_apply_other (c : RtCtx) (σ : CState) (isStart : Bool) (a : AEv) (h 
   | brk => exact h
   | ret _ => exact h
   | yield _ => exact h
+  | opt _ => exact h
+  | raised => exact h
   | append _ _ => exact False.elim ha
   | appendC _ _ => exact False.elim ha
   | setStr _ _ => exact False.elim ha
@@ -341,6 +343,8 @@ theorem runTree_inv (c : RtCtx) (hs : c.SizesOK) (isStart : Bool) (t : CTree) :
     | brk => exact inv_apply_other c σ isStart _ h trivial
     | ret x => exact inv_apply_other c σ isStart _ h trivial
     | yield x => exact inv_apply_other c σ isStart _ h trivial
+    | opt x => exact inv_apply_other c σ isStart _ h trivial
+    | raised => exact inv_apply_other c σ isStart _ h trivial
   | case8 l => intro σ _ h; exact h
 
 theorem inv_state (c : RtCtx) (σ : CState) (s : Int) (h : Inv c σ) : Inv c { σ with state := s } :=
